@@ -11,6 +11,8 @@ REPO = os.environ.get('VERIF_REPO', '/repo')
 EAGER_METHODS = ["iter_attacks", "iter_attacks_to", "iter_attacks_from", "iter_attacks_from_id"]
 EAGER_ITER_RECEIVERS = ["argument_set()", "self.0", "self.arguments", "assignment"]
 
+USE_BASELINE_LOOPS = True
+
 class Undecided(Exception):
     """exit 2: the machinery cannot decide (never an alarm)."""
     pass
@@ -35,6 +37,8 @@ def run_vx(unit_list, units, workdir):
     for un in unit_list:
         for e in units[un].entries:
             if isinstance(e, vspec.Item):
+                for dk, dv in units[un].defaults.items():
+                    e.opts.setdefault(dk, dv)
                 it = {"file": e.file, "sel": e.sel}
                 if e.opts.get('partial'):
                     it['partial'] = True
@@ -45,6 +49,9 @@ def run_vx(unit_list, units, workdir):
                         it[k] = e.opts[k]
                 if 'opaque_fields' in e.opts:
                     it['opaque_fields'] = e.opts['opaque_fields'].split(',')
+                bl = (shapes().get("%s :: %s" % (e.file, e.sel)) or {}).get('loops')
+                if bl and USE_BASELINE_LOOPS:
+                    it['baseline_loops'] = bl
                 items.append(it)
                 index.append((un, e))
     plan = {"src_root": os.path.join(REPO, 'src'), "eager_methods": EAGER_METHODS,
@@ -100,7 +107,7 @@ def markers_of(text):
 def fallback_anchor(text, what, prefix, nth):
     """the anchored statement no longer exists (deleted or reshaped): attach the hint before the next statement of the
     baseline statement sequence that still exists, else at the end of the body"""
-    base = shapes().get(what)
+    base = (shapes().get(what) or {}).get('stmts')
     if not base:
         return None
     idxs = [i for i, t in enumerate(base) if t.startswith(prefix)]
@@ -258,7 +265,8 @@ def assemble(unit_names, workdir, repo=None):
     for un in order:
         for e in units[un].entries:
             if isinstance(e, vspec.Item):
-                shape_now["%s :: %s" % (e.file, e.sel)] = markers_of(ext[id(e)]['text'])
+                shape_now["%s :: %s" % (e.file, e.sel)] = {"stmts": markers_of(ext[id(e)]['text']),
+                                                          "loops": ext[id(e)].get('loop_sigs', [])}
     meta = {"units": order, "linemap": linemap, "items": functions, "path": path, "shapes": shape_now,
             "reanchored": list(REANCHORED)}
     return path, meta
